@@ -599,3 +599,43 @@ Definition spec_plus (x y : val) : option val :=
   | VTuple a, VTuple b => Some (VTuple (a ++ b))
   | _, _ => None
   end.
+
+(* ------------------------------------------------------------------ part 4 *)
+(* sorted, min, max over the keys k_0 .. k_(n-1) of the elements, elements
+   named by their positions (spec.md: "sorted order.  The sort algorithm is
+   stable"; reverse = "reverse sorted order", and -- as in Python -- ties keep
+   their input order in BOTH directions; min / max: "the least / greatest
+   element", the first one among equals).
+   sorted_ok is the specification as a decidable relation between the keys
+   and an output: the output lists positions below n, as many as there are
+   elements, strictly increasing in the order
+        a before b  iff  key a < key b  (key a > key b when reversed)
+                         or  key a = key b  and  a < b.
+   Such a list is necessarily the unique permutation in that order. *)
+Definition key_at (keys : list Z) (i : nat) : Z := nth i keys 0.
+Definition before (reverse : bool) (keys : list Z) (a b : nat) : bool :=
+  let ka := key_at keys a in let kb := key_at keys b in
+  (if reverse then kb <? ka else ka <? kb) || ((ka =? kb) && Nat.ltb a b).
+Fixpoint increasing (lt : nat -> nat -> bool) (l : list nat) : bool :=
+  match l with
+  | a :: t => match t with b :: _ => lt a b && increasing lt t | [] => true end
+  | [] => true
+  end.
+Definition sorted_ok (reverse : bool) (keys : list Z) (out : list nat) : bool :=
+  Nat.eqb (length out) (length keys) &&
+  forallb (fun i => Nat.ltb i (length keys)) out &&
+  increasing (before reverse keys) out.
+
+(* min / max: position r is valid, no key is smaller (larger), and no earlier key is equal *)
+Definition minmax_ok (is_max : bool) (keys : list Z) (r : nat) : bool :=
+  Nat.ltb r (length keys) &&
+  forallb (fun j => let kj := key_at keys j in let kr := key_at keys r in
+                    if Nat.ltb j r then (if is_max then kj <? kr else kr <? kj)
+                    else (if is_max then kj <=? kr else kr <=? kj))
+          (seq 0 (length keys)).
+Definition minmax_spec_ok (is_max : bool) (keys : list Z) (r : option nat) : bool :=
+  match r, keys with
+  | None, [] => true
+  | Some r, _ :: _ => minmax_ok is_max keys r
+  | _, _ => false
+  end.
